@@ -149,6 +149,19 @@ def run(tw, tier, seed, only=None):
             samples.append({"g1": gen.graph_desc(a), "g2": gen.graph_desc(b)})
         if len(fails) > 30:
             break
+    # systematic family: same skeleton, the host carries MORE hydrogens than the pattern on one / on every atom (the documented rule is
+    # host hcount >= pattern hcount, and graphs of equal size are the only case in which the WL pre-filter is consulted)
+    for G in pool[:: max(1, len(pool) // (30 if tier == "quick" else 300))]:
+        if G.number_of_nodes() == 0:
+            continue
+        for mode in ("one", "all"):
+            host = copy.deepcopy(G)
+            for k, n in enumerate(sorted(host.nodes)):
+                if mode == "all" or k == 0:
+                    host.nodes[n]["hcount"] = int(host.nodes[n].get("hcount", 0) or 0) + 1
+            pat = relabel(rng, G)
+            cases += 1
+            nontriv += check_pair(host, pat, fails, {"kind": "more-hydrogens-on-host"})
     for _ in range(20 if tier == "quick" else 200):
         cases += 1
         check_history(rng, [relabel(rng, rng.choice(pool), 0) for _ in range(4)], fails)
